@@ -4,7 +4,12 @@ use std::fmt::Formatter;
 use std::ops::Sub;
 use std::sync::atomic::Ordering;
 use std::sync::Arc;
+#[cfg(not(rs_store_verif))]
 use std::{fmt, sync::atomic::AtomicUsize, time::Duration};
+#[cfg(rs_store_verif)]
+use std::{fmt, time::Duration};
+#[cfg(rs_store_verif)]
+use verif_rt::sync::atomic::AtomicUsize;
 
 /// Metrics is a trait for metrics that can be used to track the state of the store.
 #[allow(dead_code)]
